@@ -17,9 +17,14 @@
 (* partially", in the weakest reading (see NegotiatedOK).                    *)
 EXTENDS Naturals, Sequences, FiniteSets, TLC, SequencesExt
 
-CONSTANT Impl    \* "asis": defaults keyed by strings.ToLower(mime) while mimes are compared with
-                 \*         strings.EqualFold (what internal/fmtp does);
-                 \* "intended": defaults keyed consistently with the comparison (Unicode simple folding)
+CONSTANT Impl    \* how defaultClockRate / defaultChannels key their table of defaults:
+                 \* "intended": with the same folding as the mime comparison (strings.EqualFold) -- this is
+                 \*     what internal/fmtp does since the repair "fmtp default clock rate and channels use
+                 \*     the same case folding as the mime comparison"; it is the variant every prediction
+                 \*     (emitted result codes, drift comparison, C15 model) is made with;
+                 \* "asis": by strings.ToLower(mime) while mimes are compared with strings.EqualFold -- the
+                 \*     code as it was pinned, before that repair; kept only so that TLC exhibits the
+                 \*     counterexample to symmetry that was found with it (CodecMatch_asis.cfg).
 
 -----------------------------------------------------------------------------
 (* Part 1: strings *)
@@ -31,7 +36,8 @@ LowTab   == [c \in {Ch(UpperAZ, i) : i \in 1..26} |-> Ch(LowerAZ, CHOOSE i \in 1
 UpTab    == [c \in {Ch(LowerAZ, i) : i \in 1..26} |-> Ch(UpperAZ, CHOOSE i \in 1..26 : Ch(LowerAZ, i) = c)]
 
 \* "$" stands for U+017F LATIN SMALL LETTER LONG S (SANY strings are ASCII; the Go drivers
-\* substitute it).  Go: unicode.ToLower(U+017F) = U+017F, but strings.EqualFold("s", U+017F) = true.
+\* substitute it).  Go: unicode.ToLower(U+017F) = U+017F, but strings.EqualFold("s", U+017F) = true
+\* (the one place where ToLower-keyed defaults and EqualFold comparison disagreed, see Impl).
 LongS == "$"
 
 LowerC(c) == IF c \in DOMAIN LowTab THEN LowTab[c] ELSE c           \* strings.ToLower
@@ -135,7 +141,7 @@ ParseLineC(cache, line) == IF line \in DOMAIN cache.lines THEN cache.lines[line]
 ParseMimeC(cache, mime) == IF mime \in DOMAIN cache.mimes THEN cache.mimes[mime] ELSE ParseMime(mime)
 ParseC(cache, mime, clock, ch, line) == Assemble(ParseMimeC(cache, mime), clock, ch, ParseLineC(cache, line))
 
-DefKey(P) == IF Impl = "asis" THEN P.ml ELSE P.mf
+DefKey(P) == IF Impl = "asis" THEN P.ml ELSE P.mf      \* current code: P.mf (EqualFold against the table)
 DefaultClock(P)    == CASE DefKey(P) = "audio/opus" -> 48000
                         [] DefKey(P) \in {"audio/pcmu", "audio/pcma"} -> 8000 [] OTHER -> 90000
 DefaultChannels(P) == IF DefKey(P) = "audio/opus" THEN 2 ELSE 0
